@@ -13,7 +13,7 @@ into nasty strings and extreme numbers) and this module compares:
        rejected => no output; accepted => no duplicate members and bytes identical to a formatter
        with validations disabled
 """
-import json, os, re, sys, time
+import hashlib, json, os, re, sys, time
 from decimal import Decimal
 from fractions import Fraction
 from itertools import permutations
@@ -69,18 +69,22 @@ ERR_KINDS = [
 # --------------------------------------------------------------------------------------------
 # TLC: model checking + behaviour generation (one run per slice does both)
 # --------------------------------------------------------------------------------------------
-def _replay_objs(out):
+def _write_replay_lines(out, path):
+    """REPLAY lines of a TLC run -> ndjson file (the second tuple element is a TLA+ string literal whose
+    escapes coincide with JSON's). Returns the number of lines."""
     pre = '<<"REPLAY", '
-    objs = []
-    for l in out.splitlines():
-        if l.startswith(pre):
-            # the second element is a TLA+ string literal whose escapes coincide with JSON's
-            objs.append(json.loads(json.loads(l[len(pre):-2])))
-    return objs
+    k = 0
+    with open(path, "w") as f:
+        for l in out.splitlines():
+            if l.startswith(pre):
+                f.write(json.loads(l[len(pre):-2]))
+                f.write("\n")
+                k += 1
+    return k
 
 
 def _run_slice(args):
-    name, cfg, sim, seed, workers = args
+    name, cfg, sim, seed, workers, path = args
     if sim is None:
         r = vlib.tlc(SPECD, MODULE, cfg, workers=workers, coverage=True, timeout=3000, heap="6g")
     else:
@@ -94,78 +98,50 @@ def _run_slice(args):
         sys.stdout.write(tail + "\n")
         raise vlib.ToolError(f"model {MODULE}/{cfg} does not satisfy its own invariants: "
                              f"{(r.invariant_violated or r.errors)[:3]}")
-    objs = _replay_objs(r.out)
+    count = _write_replay_lines(r.out, path)
     # vlib's coverage regex does not match "<Action line .. of module M (l c l c)>: d:t" (actions that are
     # disjuncts with a location suffix); parse those here
     for m in re.finditer(r"^<(\w+) line [^>]*>: (\d+):(\d+)", r.out, re.M):
         if m.group(1) in ACTIONS or m.group(1) == "Init":
             r.coverage[m.group(1)] = max(r.coverage.get(m.group(1), 0), int(m.group(3)))
     r.out = ""  # the raw output can be hundreds of MB
-    return name, cfg, sim, r, objs
+    if sim is None and r.distinct != count:
+        raise vlib.ToolError(f"{cfg}: {r.distinct} distinct states but {count} REPLAY lines")
+    vlib.log(f"[tlc] {MODULE}/{cfg}: {r.distinct or r.generated} states, {count} behaviours printed, {r.wall:.1f}s"
+             + (f" (simulate num={sim} depth={SIM_DEPTH} seed={seed})" if sim else ""))
+    return name, cfg, sim, r, path, count
 
 
-_gen_cache = {}
+CHUNK = 25000
 
 
-def generate(prop, tier, seed):
-    """-> (behaviours, [(slice, cfg, TlcResult)]); cached per process."""
-    slices = slices_for(prop, tier)
-    key = (tuple(slices), seed)
-    if key in _gen_cache:
-        return _gen_cache[key]
-    par = 3 if tier == "quick" else 2
-    workers = max(1, vlib.TLC_WORKERS // par)
-    t = time.time()
-    with ThreadPoolExecutor(max_workers=par) as ex:
-        res = list(ex.map(_run_slice, [(n, c, s, seed, workers) for n, c, s in slices]))
-    beh, models, seen = [], [], set()
-    covered = {}
-    for name, cfg, sim, r, objs in res:
-        fresh = 0
-        for o in objs:
-            k = json.dumps([o["cfg"], o["calls"]], sort_keys=True)
+def _chunks(path, name, seed, seen, counter):
+    """behaviours of one slice in chunks, deduplicated across slices, with id and concretisation variant"""
+    chunk = []
+    with open(path) as f:
+        for l in f:
+            o = json.loads(l)
+            k = hashlib.md5(json.dumps([o["cfg"], o["calls"]], sort_keys=True).encode()).digest()
             if k in seen:
                 continue
             seen.add(k)
             o["slice"] = name
-            o["id"] = len(beh)
+            o["id"] = counter[0]
+            counter[0] += 1
             # concretisation variant: 0 = plain symbols, otherwise nasty strings / extreme numbers
             o["v"] = (seed * 7919 + o["id"] * 31) % 977
-            beh.append(o)
-            fresh += 1
-        if sim is None:
-            if r.distinct != len(objs):
-                raise vlib.ToolError(f"{cfg}: {r.distinct} distinct states but {len(objs)} REPLAY lines")
-        for a, n in r.coverage.items():
-            covered[a] = covered.get(a, 0) + n
-        vlib.log(f"[tlc] {MODULE}/{cfg}: {r.distinct or r.generated} states, {len(objs)} behaviours ({fresh} new), "
-                 f"{r.wall:.1f}s" + (f" simulate num={sim}" if sim else ""))
-        models.append((name, cfg, r))
-    # vacuity: every kind of writer call must occur, as a step of the machine or inside a catalogue
-    # entry (slice D starts from complete entries and takes no steps)
-    ops = {c["op"] for o in beh for c in o["calls"]}
-    opname = {"Timestamp": "TS", "Config": "CFG", "StringValue": "STR", "MetricValue": "MET", "ErrorValue": "ERR",
-              "EmptyValue": "EMPTY"}
-    never = [a for a in ACTIONS if covered.get(a, 0) == 0 and opname[a] not in ops]
-    if never:
-        raise vlib.ToolError(f"vacuity: writer calls never issued in any slice: {never}")
-    if not any(o["on"]["accept"] for o in beh) or all(o["on"]["accept"] for o in beh):
-        raise vlib.ToolError("vacuity: the generated entries are all accepted or all rejected")
-    vlib.log(f"[tlc] {len(beh)} behaviours generated in {time.time()-t:.1f}s")
-    _gen_cache[key] = (beh, models)
-    return beh, models
+            chunk.append(o)
+            if len(chunk) >= CHUNK:
+                yield chunk
+                chunk = []
+    if chunk:
+        yield chunk
 
 
 # --------------------------------------------------------------------------------------------
 # driver
 # --------------------------------------------------------------------------------------------
-_drv_cache = {}
-
-
 def drive(chk, beh, release, tag):
-    key = (id(beh), release)
-    if key in _drv_cache:
-        return _drv_cache[key]
     vlib.cargo_build(["emf"], release=release)
     prof = "release" if release else "debug"
     bp = os.path.join(chk.dir, f"beh-{tag}.ndjson")
@@ -173,17 +149,15 @@ def drive(chk, beh, release, tag):
     with open(bp, "w") as f:
         for b in beh:
             f.write(json.dumps({"id": b["id"], "v": b["v"], "cfg": b["cfg"], "calls": b["calls"]}) + "\n")
-    t = time.time()
     vlib.run_bin("emf", ["replay", "--behaviours", bp, "--out", op], release=release, timeout=3000)
     outs = vlib.read_ndjson(op)
     os.remove(op)
+    os.remove(bp)
     if len(outs) != len(beh):
         raise vlib.ToolError(f"driver returned {len(outs)} results for {len(beh)} behaviours")
     for o in outs:
         if o["profile"] != prof:
             raise vlib.ToolError(f"driver built as {o['profile']}, expected {prof}")
-    vlib.log(f"[emf] {len(beh)} behaviours replayed into the real formatter ({prof}) in {time.time()-t:.1f}s")
-    _drv_cache[key] = outs
     return outs
 
 
@@ -442,9 +416,7 @@ def judge(b, o, debug):
                         f"{'accepted' if ok else 'rejected (' + str(g['err'])[:200] + ')'} an entry the model "
                         f"{'accepts' if exp['accept'] else 'rejects ' + str(exp['errs'])}")
                 if val and not unroutable and g["status"] != "io":
-                    if ok and not debug and w == "all_validations":
-                        key = "C08:release:all_validations-accepts-defective-entry"
-                    elif ok and exp["errs"] == ["dup"]:
+                    if ok and exp["errs"] == ["dup"]:
                         key = "C08:accepted-duplicate-member"
                     else:
                         key = "C08:decision"
@@ -552,11 +524,8 @@ def _coverage_stats(chk, prop, beh, outs):
         for e in on["errs"]:
             inc("reject_kind_" + e)
         key = json.dumps([b["cfg"], b["calls"]], sort_keys=True)
-        if prop == "C03":
-            if on["accept"]:
-                chk.nontrivial.add(key)
-        else:
-            chk.nontrivial.add(key)
+        if prop != "C03" or on["accept"]:
+            chk.nontrivial.add(hashlib.md5(key.encode()).digest())
         if on["accept"]:
             if len(on["records"]) > 1:
                 inc("accepted_with_split_records")
@@ -576,21 +545,60 @@ def _coverage_stats(chk, prop, beh, outs):
 def _run(prop, tier, chk):
     chk.rule = RULES[prop]
     chk.assumptions = ASSUMPTIONS
-    beh, models = generate(prop, tier, chk.seed)
-    for name, cfg, r in models:
-        chk.add_model(f"EmfSlices/{cfg}", r)
-    chk.extra["behaviours_generated"] = {name: sum(1 for b in beh if b["slice"] == name) for name, _, _ in models}
+    slices = slices_for(prop, tier)
+    par = 3 if tier == "quick" else 2
+    workers = max(1, vlib.TLC_WORKERS // par)
+    # build while TLC runs
+    profiles = [False, True] if prop == "C08" else [False]
     stats = chk.extra.setdefault("replay", {})
-    tag = f"{prop}-{tier}-{chk.seed}"
-    outs = drive(chk, beh, False, tag)
-    _coverage_stats(chk, prop, beh, outs)
-    _evaluate(chk, prop, beh, outs, True, stats)
-    if prop == "C08":
-        outs_r = drive(chk, beh, True, tag)
-        _evaluate(chk, prop, beh, outs_r, False, stats)
-    for b in (beh[len(beh) // 3], beh[(2 * len(beh)) // 3]):
+    generated = chk.extra.setdefault("behaviours_generated", {})
+    seen, counter, covered, ops = set(), [0], {}, set()
+    naccept = 0
+    samples = []
+    t0 = time.time()
+    with ThreadPoolExecutor(max_workers=par + 1) as ex:
+        futs = [ex.submit(_run_slice, (n, c, sm, chk.seed, workers, os.path.join(chk.dir, f"tlc-{n}.ndjson")))
+                for n, c, sm in slices]
+        bf = ex.submit(lambda: [vlib.cargo_build(["emf"], release=rel) for rel in profiles])
+        bf.result()
+        for fut in futs:
+            name, cfg, sim, r, path, count = fut.result()
+            chk.add_model(f"EmfSlices/{cfg}", r)
+            for a, k in r.coverage.items():
+                covered[a] = covered.get(a, 0) + k
+            fresh = 0
+            t1 = time.time()
+            for beh in _chunks(path, name, chk.seed, seen, counter):
+                fresh += len(beh)
+                for b in beh:
+                    ops.update(c["op"] for c in b["calls"])
+                    naccept += b["on"]["accept"]
+                for rel in profiles:
+                    outs = drive(chk, beh, rel, f"{name}-{beh[0]['id']}")
+                    if not rel:
+                        _coverage_stats(chk, prop, beh, outs)
+                    _evaluate(chk, prop, beh, outs, not rel, stats)
+                    del outs
+                if len(samples) < 4:
+                    samples.append(beh[len(beh) // 2])
+            os.remove(path)
+            generated[name] = fresh
+            vlib.log(f"[emf] slice {name}: {fresh} new behaviours replayed into the real formatter "
+                     f"({'debug+release' if len(profiles) == 2 else 'debug'}) and compared in {time.time()-t1:.1f}s")
+    # vacuity: every kind of writer call must occur, as a step of the machine or inside a catalogue entry
+    # (slice D starts from complete entries and takes no steps); both verdicts must occur
+    opname = {"Timestamp": "TS", "Config": "CFG", "StringValue": "STR", "MetricValue": "MET", "ErrorValue": "ERR",
+              "EmptyValue": "EMPTY"}
+    never = [a for a in ACTIONS if covered.get(a, 0) == 0 and opname[a] not in ops]
+    if never:
+        raise vlib.ToolError(f"vacuity: writer calls never issued in any slice: {never}")
+    if naccept == 0 or naccept == counter[0]:
+        raise vlib.ToolError("vacuity: the generated entries are all accepted or all rejected")
+    chk.extra["behaviours_total"] = counter[0]
+    for b in samples:
         chk.sample({"cfg": b["cfg"], "calls": [[c["op"], c["name"], c["arg"], c["obs"], c["dims"]] for c in b["calls"]],
                     "model_on": "accept" if b["on"]["accept"] else b["on"]["errs"]})
+    vlib.log(f"[emf] {counter[0]} behaviours in {time.time()-t0:.1f}s")
 
 
 def run(prop, tier):
